@@ -126,11 +126,11 @@ def replace_subgroups(
 
     replace_kwargs = {}
     for field in dataclasses.fields(obj):
-        if not field.init:
-            raise ValueError(f"Cannot replace value of non-init field {field.name}.")
-
         if field.name not in selections:
             continue
+
+        if not field.init:
+            raise ValueError(f"Cannot replace value of non-init field {field.name}.")
 
         field_value = getattr(obj, field.name)
         field_annotation = get_field_type_from_annotations(obj.__class__, field.name)
